@@ -62,3 +62,64 @@ package analysis
 //@ func LoadSource
 //@   props C17
 //@   ensures result2 == nil ==> result1 != nil && (exists j int :: 0 <= j && j < len(result1.GoFiles) && result1.GoFiles[j] == filepath.Abs(sourceFile))
+
+// ---------------------------------------------------------------- C10
+
+//@ pred ival(m EnumMember) int = constant.Int64Val(m.Const.Val())
+//@ pred isI64(m EnumMember) bool = second(constant.Int64Val(m.Const.Val()))
+//@ pred isExp(m EnumMember) bool = m.Const.Exported()
+
+//@ func EnumMember.int64
+//@   props C10
+//@   ensures result1 == ival(em) && result2 == isI64(em)
+
+// integer-backedness depends only on the (immutable) named type of the enum
+//@ func (*Enum).IsInteger
+//@   pure
+
+//@ func sortBy.Len
+//@   props C10
+//@   ensures result == len(a.members)
+
+//@ func sortBy.Less
+//@   props C10
+//@   requires 0 <= i && i < len(a.values) && 0 <= j && j < len(a.values)
+//@   ensures result <==> a.values[i] < a.values[j]
+
+//@ func sortBy.Swap
+//@   props C10
+//@   requires 0 <= i && i < len(a.members) && 0 <= j && j < len(a.members) && len(a.values) == len(a.members)
+//@   modifies contents(a.members), contents(a.values)
+//@   ensures a.members[i] == old(a.members[j]) && a.members[j] == old(a.members[i])
+//@   ensures a.values[i] == old(a.values[j]) && a.values[j] == old(a.values[i])
+//@   ensures forall k int :: 0 <= k && k < len(a.members) && k != i && k != j ==> a.members[k] == old(a.members[k]) && a.values[k] == old(a.values[k])
+
+// the exported members, in the reported order, have the values 0,1,2,... without gap or duplicate:
+// values are sorted over all members (S1), pairwise distinct over the exported ones (S2) and
+// downward closed over the exported ones (S3). (S1-S3 ==> "the k-th exported member has value k":
+// lemmas/iota_exact.lean.)
+//@ pred downClosed(M []EnumMember) bool = forall i, x int :: 0 <= i && i < len(M) && isExp(M[i]) && 0 <= x && x < ival(M[i]) && tr(x) ==> (exists j int :: 0 <= j && j < len(M) && isExp(M[j]) && ival(M[j]) == x)
+//@ pred distinctExp(M []EnumMember) bool = forall i, j int :: 0 <= i && i < len(M) && 0 <= j && j < len(M) && i != j && isExp(M[i]) && isExp(M[j]) ==> ival(M[i]) != ival(M[j])
+//@ pred allNat(M []EnumMember) bool = forall i int :: 0 <= i && i < len(M) ==> isI64(M[i]) && ival(M[i]) >= 0
+
+//@ func (*Enum).setIsIota
+//@   props C10
+//@   requires e != nil && !e.IsIota
+//@   modifies e.IsIota, contents(e.Members)
+//@   -- nothing lost, nothing invented
+//@   ensures forall i int :: 0 <= i && i < len(e.Members) ==> (exists j int :: 0 <= j && j < len(e.Members) && e.Members[i] == old(e.Members[j]))
+//@   ensures forall j int :: 0 <= j && j < len(e.Members) ==> (exists i int :: 0 <= i && i < len(e.Members) && e.Members[i] == old(e.Members[j]))
+//@   ensures !e.IsIota ==> (forall i int :: 0 <= i && i < len(e.Members) ==> e.Members[i] == old(e.Members[i]))
+//@   -- soundness: flagged only when ...
+//@   ensures e.IsIota ==> e.IsInteger() && allNat(e.Members)
+//@   ensures e.IsIota ==> (forall i, j int :: 0 <= i && i < j && j < len(e.Members) ==> ival(e.Members[i]) <= ival(e.Members[j]))
+//@   ensures e.IsIota ==> distinctExp(e.Members)
+//@   ensures e.IsIota ==> downClosed(e.Members)
+//@   -- completeness: ... and flagged for every plain block of non-negative constants 0,1,2,...
+//@   ensures old(e.IsInteger() && allNat(e.Members) && distinctExp(e.Members) && downClosed(e.Members)) ==> e.IsIota
+//@   loop 1 index k
+//@   loop 1 invariant forall t int :: 0 <= t && t < k ==> isI64(e.Members[t]) && ival(e.Members[t]) >= 0 && values[t] == ival(e.Members[t])
+//@   loop 1 invariant forall v int :: has(seen, v) <==> (exists t int :: 0 <= t && t < k && isExp(e.Members[t]) && ival(e.Members[t]) == v)
+//@   loop 1 invariant forall v int :: has(seen, v) ==> seen[v]
+//@   loop 1 invariant max >= -1 && within(domain(seen), max) && (max == -1 || has(seen, max))
+//@   loop 1 invariant forall s, t int :: 0 <= s && s < k && 0 <= t && t < k && s != t && isExp(e.Members[s]) && isExp(e.Members[t]) ==> ival(e.Members[s]) != ival(e.Members[t])
